@@ -10,7 +10,7 @@ rm -rf $scratch; git -C /repo worktree add --detach $scratch HEAD >/dev/null 2>&
 cmake -G Ninja -S $scratch -B $scratch/_build -DGLM_BUILD_TESTS=ON -DCMAKE_BUILD_TYPE=RelWithDebInfo -DCMAKE_CXX_FLAGS=-Wno-error >/dev/null 2>&1
 cmake --build $scratch/_build -j16 >/tmp/seed/confirm_$sid.build.log 2>&1; brc=$?
 tests=$(ctest --test-dir $scratch/_build -j16 --timeout 900 2>&1 | grep "tests passed" )
-flags=$(head -3 $out/demo.cpp | grep -o -- '-[DmfO][A-Za-z0-9_=.+-]*' | tr '\n' ' ')
+flags=$(head -1 $out/demo.cpp | grep -o -- ' -[DmfO][A-Za-z0-9_][A-Za-z0-9_=.+-]*' | grep -v -- '-o$' | tr '\n' ' ')
 g++ -std=gnu++17 -I$scratch $flags $out/demo.cpp -o /tmp/seed/demo_$sid.with 2>/dev/null && /tmp/seed/demo_$sid.with >/dev/null 2>&1; with=$?
 g++ -std=gnu++17 -I/repo $flags $out/demo.cpp -o /tmp/seed/demo_$sid.without 2>/dev/null && /tmp/seed/demo_$sid.without >/dev/null 2>&1; without=$?
 git -C /repo worktree remove --force $scratch
